@@ -203,9 +203,13 @@ func (dc *TraditionalDnsConn) readLoop() {
 			dc.CloseWithErr(fmt.Errorf("read err, %w", err)) // abort this connection.
 			return
 		}
-		dc.waitingResp.Store(false)
-
 		rid := binary.BigEndian.Uint16(*r)
+		// Replies to other queries may still be owed: the connection is idle only if
+		// nothing else is outstanding. Otherwise keep the (short) waiting deadline, or a
+		// query the server never answers would wait for the idle timeout (5 min for udp)
+		// as soon as any other reply was read.
+		dc.waitingResp.Store(dc.othersWaiting(rid))
+
 		resChan := dc.getQueueC(rid)
 		if resChan != nil {
 			select {
@@ -249,6 +253,17 @@ func (dc *TraditionalDnsConn) getQueueC(qid uint16) chan<- *[]byte {
 	dc.queueMu.RLock()
 	defer dc.queueMu.RUnlock()
 	return dc.queue[uint32(qid)]
+}
+
+// othersWaiting reports whether a query other than qid is waiting for its reply.
+func (dc *TraditionalDnsConn) othersWaiting(qid uint16) bool {
+	dc.queueMu.RLock()
+	defer dc.queueMu.RUnlock()
+	n := len(dc.queue)
+	if _, ok := dc.queue[uint32(qid)]; ok {
+		n--
+	}
+	return n > 0
 }
 
 func (dc *TraditionalDnsConn) queueLen() int {
